@@ -8,8 +8,10 @@ import (
 	"hash/fnv"
 	"os"
 	"path/filepath"
+	"runtime"
 	"sort"
 	"strings"
+	"time"
 )
 
 // Hex encodes bytes for the line protocol ("-" is the empty string).
@@ -66,7 +68,7 @@ func NewRec(dir string, exec func(string) string) (*Rec, error) {
 // correspondence).  nontrivial says whether the case counts as non-trivial
 // by the stream's rule.
 func (r *Rec) Op(kind, line string, nontrivial bool) string {
-	res := r.Exec(line)
+	res := r.execGuarded(line)
 	fmt.Fprintf(r.ops, "%s %s\n", kind, line)
 	fmt.Fprintf(r.impl, "%s\n", res)
 	r.N++
@@ -90,6 +92,49 @@ func (r *Rec) Op(kind, line string, nontrivial bool) string {
 	}
 	r.Dist[key+" -> "+strings.SplitN(res, " ", 2)[0]]++
 	return res
+}
+
+// OpTimeout bounds one op; a slower op is recorded as "blocked" and ends the run (a runaway
+// goroutine cannot be stopped, so nothing after it would be trustworthy).
+var OpTimeout = 20 * time.Second
+
+// MemLimit: an op during which the heap grows beyond this is recorded as "blocked".
+var MemLimit uint64 = 3 << 30
+
+func (r *Rec) execGuarded(line string) string {
+	done := make(chan string, 1)
+	go func() { done <- r.Exec(line) }()
+	timer := time.NewTimer(OpTimeout)
+	defer timer.Stop()
+	tick := time.NewTicker(200 * time.Millisecond)
+	defer tick.Stop()
+	for {
+		select {
+		case res := <-done:
+			return res
+		case <-tick.C:
+			var ms runtime.MemStats
+			runtime.ReadMemStats(&ms)
+			if ms.HeapAlloc < MemLimit {
+				continue
+			}
+		case <-timer.C:
+		}
+		// blocked: record it and stop the run
+		fmt.Fprintf(r.ops, "S %s\n", line)
+		fmt.Fprintf(r.impl, "blocked\n")
+		r.N++
+		r.Dist["blocked"]++
+		r.Close(map[string]interface{}{"stopped_after_blocked_op": line[:minInt(len(line), 300)]})
+		os.Exit(3)
+	}
+}
+
+func minInt(a, b int) int {
+	if a < b {
+		return a
+	}
+	return b
 }
 
 func trunc(s string, n int) string {
